@@ -2,7 +2,7 @@
    check_corr compares them with the model, check_spec evaluates the property itself on the observations only
    (it never looks at the model's compile): the run with options must equal T applied pointwise to the plain run. *)
 From Coq Require Import List ZArith QArith Bool.
-Require Import QV.common.Util QV.C05.Model QV.C05.Spec.
+Require Import QV.common.Util QV.C05.Model QV.C05.Spec QV.C05.Param.
 Import ListNotations.
 Open Scope Z_scope.
 
@@ -14,10 +14,11 @@ Inductive obs :=
 | ORaise.      (* create_program or sampling a leaf raised KeyError('Invalid input channels') *)
 
 Inductive case :=
-| COpt (p : pt) (S : list N) (G : list trafo) (plain opt : obs)
-    (* plain = create_program(), opt = create_program(to_single_waveform=S, global_transformation=G) *)
-| CSame (p1 p2 : pt) (o1 o2 : obs)
-    (* p1 = what a convenience constructor returned, p2 = the explicit nesting it replaces; both compiled plainly *)
+| COpt (q : ppt) (ps : list (pname * Q)) (S : list N) (G : list trafo) (plain opt : obs)
+    (* plain = create_program(parameters=ps), opt = create_program(parameters=ps, to_single_waveform=S,
+       global_transformation=G) *)
+| CSame (q1 q2 : ppt) (ps : list (pname * Q)) (o1 o2 : obs)
+    (* q1 = what a convenience constructor returned, q2 = the explicit nesting it replaces; both compiled plainly *)
 | CCrash.
 
 Fixpoint insert {A} (leb : A -> A -> bool) (x : A) (l : list A) : list A :=
@@ -40,8 +41,9 @@ Definition range_z (n : Z) : list Z := map Z.of_nat (seq 0 (Z.to_nat n)).
 Definition prog_chans (l : loop) : list chan :=
   match flat l with [] => [] | w :: _ => isort N.leb (wchans w) end.
 
-Definition model_obs (p : pt) (S : list N) (G : list trafo) : obs :=
-  match compile p S G with
+(* the model's compilation is the scope-threading one (Param.v: internal_q with the builder's frame stack) *)
+Definition model_obs (q : ppt) (ps : list (pname * Q)) (S : list N) (G : list trafo) : obs :=
+  match compile_q q ps S G with
   | None => ONone
   | Some prog =>
       let cs := prog_chans prog in
@@ -71,19 +73,19 @@ Definition obs_eqb (a b : obs) : bool :=
    the guards of the theorems; outside them the model encodes a known defect of the code, the property itself is
    judged by check_spec there, and an implementation that differs from the model by being right must not alarm
    (check_corr_strict compares everywhere and is used for statistics only). *)
-Definition in_guards (p : pt) (cs : list N) (G : list trafo) : bool :=
-  guard_C05_single_waveform cs p && guard_C05_parallel_order G p.
+Definition in_guards (q : ppt) (ps : list (pname * Q)) (cs : list N) (G : list trafo) : bool :=
+  let p := inst (scope_of ps) q in guard_C05_single_waveform cs p && guard_C05_parallel_order G p.
 Definition check_corr_strict (c : case) : bool :=
   match c with
-  | COpt p cs G plain opt => obs_eqb (model_obs p [] []) plain && obs_eqb (model_obs p cs G) opt
-  | CSame p1 p2 o1 o2 => obs_eqb (model_obs p1 [] []) o1 && obs_eqb (model_obs p2 [] []) o2
+  | COpt q ps cs G plain opt => obs_eqb (model_obs q ps [] []) plain && obs_eqb (model_obs q ps cs G) opt
+  | CSame q1 q2 ps o1 o2 => obs_eqb (model_obs q1 ps [] []) o1 && obs_eqb (model_obs q2 ps [] []) o2
   | CCrash => false
   end.
 Definition check_corr (c : case) : bool :=
   match c with
-  | COpt p cs G plain opt =>
-      obs_eqb (model_obs p [] []) plain && (negb (in_guards p cs G) || obs_eqb (model_obs p cs G) opt)
-  | CSame p1 p2 o1 o2 => obs_eqb (model_obs p1 [] []) o1 && obs_eqb (model_obs p2 [] []) o2
+  | COpt q ps cs G plain opt =>
+      obs_eqb (model_obs q ps [] []) plain && (negb (in_guards q ps cs G) || obs_eqb (model_obs q ps cs G) opt)
+  | CSame q1 q2 ps o1 o2 => obs_eqb (model_obs q1 ps [] []) o1 && obs_eqb (model_obs q2 ps [] []) o2
   | CCrash => false
   end.
 
@@ -122,9 +124,9 @@ Definition transformed_obs (G : list trafo) (plain opt : obs) : bool :=
 
 Definition check_spec (c : case) : bool :=
   match c with
-  | COpt _ _ G plain opt =>
+  | COpt _ _ _ G plain opt =>
       well_shaped plain && well_shaped opt && no_nan opt && transformed_obs G plain opt
-  | CSame _ _ o1 o2 =>
+  | CSame _ _ _ o1 o2 =>
       well_shaped o1 && well_shaped o2 && no_nan o1 && transformed_obs [] o2 o1
   | CCrash => false
   end.
